@@ -185,8 +185,13 @@ V = [
      "                range_bool[x_data < rmin] = False\n                range_bool[x_data > rmax] = False\n",
      "                range_bool &= (x_data >= rmin) & (x_data <= rmax)\n", ""),
     # ---- C06
-    ("C06", B, "reset only when steps", PRE, "    apret.reset_data()\n",
-     "    if identifiers:\n        apret.reset_data()\n", "C06-R1"),
+    ("C06", B, "reset only when steps", PRE,
+     "    apret.reset_data()\n    try:",
+     "    if identifiers:\n        apret.reset_data()\n    try:", "C06-R1"),
+    ("C06", B, "failed pipeline keeps edited columns", PRE,
+     "        # Do not leave a partially preprocessed dataset behind.\n"
+     "        apret.reset_data()\n        raise\n",
+     "        raise\n", "C06-R9"),
     ("C06", B, "memo kept on failure", IND,
      '            fp.pop("preprocessing", None)\n            fp.pop("preprocessing_options", None)\n', "",
      "C06-R3"),
